@@ -1,4 +1,5 @@
 import S3db.Lemmas.RowMerge
+import S3db.Lemmas.TableCells
 /-!
 # C01 — multi-writer merge converges regardless of merge order, grouping and repetition
 
@@ -29,12 +30,69 @@ structure Family (S : List String) (vs : Nat → Table K V) : Prop where
   col   : ∀ k c i j e e' x y, lookup k (vs i) = some e → lookup k (vs j) = some e' →
             lookup c e.row.cols = some x → lookup c e'.row.cols = some y → ColR x y
 
+theorem nodup_evalTables (vs : Nat → Table K V) (hn : ∀ i, NodupKeys (vs i)) :
+    ∀ p, NodupKeys (evalTables vs p)
+  | .leaf i => hn i
+  | .node p _ => Kv.nodupKeys_mergeTrees _ _ (nodup_evalTables vs hn p)
+
+omit [DecidableEq V] in
+theorem Family.statR {S : List String} {vs : Nat → Table K V} (F : Family S vs) (k : K) :
+    ∀ i j x y, statusCell (lookup k (vs i)) = some x → statusCell (lookup k (vs j)) = some y →
+      StatusR x y := by
+  intro i j x y hx hy
+  cases hi : lookup k (vs i) with
+  | none => rw [hi] at hx; cases hx
+  | some e =>
+    cases hj : lookup k (vs j) with
+    | none => rw [hj] at hy; cases hy
+    | some e' =>
+      rw [hi] at hx; rw [hj] at hy
+      simp only [statusCell, Option.map_some, Option.some.injEq] at hx hy
+      subst hx; subst hy
+      exact F.stat k i j e e' hi hj
+
+omit [DecidableEq V] in
+theorem Family.colR {S : List String} {vs : Nat → Table K V} (F : Family S vs) (k : K) (c : String) :
+    ∀ i j x y, colCell c (lookup k (vs i)) = some x → colCell c (lookup k (vs j)) = some y →
+      ColR x y := by
+  intro i j x y hx hy
+  cases hi : lookup k (vs i) with
+  | none => rw [hi] at hx; cases hx
+  | some e =>
+    cases hj : lookup k (vs j) with
+    | none => rw [hj] at hy; cases hy
+    | some e' =>
+      rw [hi] at hx; rw [hj] at hy
+      exact F.col k c i j e e' x y hi hj hx hy
+
 /-- every cell of every key after any plan is the cell-wise selection over the plan's leaves -/
 theorem cells_of_plan (S : List String) (vs : Nat → Table K V) (F : Family S vs) (k : K) (p : Sel.Plan) :
     statusCell (lookup k (evalTables vs p)) = Sel.evalAt selStatus (fun i => statusCell (lookup k (vs i))) p ∧
     (∀ c, colCell c (lookup k (evalTables vs p)) = Sel.evalAt selCol (fun i => colCell c (lookup k (vs i))) p) ∧
     (∀ e, lookup k (evalTables vs p) = some e → RowInv S e.row) := by
-  sorry
+  induction p with
+  | leaf i => exact ⟨rfl, fun _ => rfl, fun e he => F.inv i k e he⟩
+  | node p q ihp ihq =>
+    obtain ⟨hsp, hcp, hip⟩ := ihp
+    obtain ⟨hsq, hcq, hiq⟩ := ihq
+    have hl : lookup k (evalTables vs (.node p q))
+        = Kv.mergeOpt mergeEntry (lookup k (evalTables vs p)) (lookup k (evalTables vs q)) :=
+      Kv.lookup_mergeTrees mergeEntry _ (nodup_evalTables vs F.nodup q) _ k
+    rw [hl]
+    refine ⟨?_, ?_, mergeOpt_inv S _ _ hip hiq⟩
+    · show _ = Sel.selOpt selStatus _ _
+      rw [← hsp, ← hsq]
+      apply mergeOpt_status
+      intro x y hx hy
+      exact Sel.evalAt_rel statusLaws (F.statR k) p q
+        (by rw [← hsp, hx]; rfl) (by rw [← hsq, hy]; rfl)
+    · intro c
+      show _ = Sel.selOpt selCol _ _
+      rw [← hcp c, ← hcq c]
+      apply mergeOpt_col S _ _ hip hiq
+      intro x y a b hx hy ha hb
+      exact Sel.evalAt_rel colLaws (F.colR k c) p q
+        (by rw [← hcp c, hx]; exact ha) (by rw [← hcq c, hy]; exact hb)
 
 /-- **C01 (rows)**: two readers that merged the same set of versions hold, for every key, the
     same status and the same value and time in every column — whatever the order, the grouping
@@ -43,14 +101,20 @@ theorem C01_converges (S : List String) (vs : Nat → Table K V) (F : Family S v
     (p q : Sel.Plan) (hpq : ∀ i, i ∈ p.leaves ↔ i ∈ q.leaves) (k : K) :
     statusCell (lookup k (evalTables vs p)) = statusCell (lookup k (evalTables vs q)) ∧
     ∀ c, colCell c (lookup k (evalTables vs p)) = colCell c (lookup k (evalTables vs q)) := by
-  sorry
+  obtain ⟨hsp, hcp, _⟩ := cells_of_plan S vs F k p
+  obtain ⟨hsq, hcq, _⟩ := cells_of_plan S vs F k q
+  refine ⟨?_, fun c => ?_⟩
+  · rw [hsp, hsq]; exact Sel.evalAt_indep statusLaws (F.statR k) p q hpq
+  · rw [hcp c, hcq c]; exact Sel.evalAt_indep colLaws (F.colR k c) p q hpq
 
 /-- what SQL shows is the same: same keys visible, same value in every column -/
 theorem C01_visible (S : List String) (vs : Nat → Table K V) (F : Family S vs)
     (p q : Sel.Plan) (hpq : ∀ i, i ∈ p.leaves ↔ i ∈ q.leaves) (k : K) :
     (visibleRow (evalTables vs p) k).isSome = (visibleRow (evalTables vs q) k).isSome ∧
     ∀ c, (visibleRow (evalTables vs p) k).bind (lookup c) = (visibleRow (evalTables vs q) k).bind (lookup c) := by
-  sorry
+  obtain ⟨hs, hc⟩ := C01_converges S vs F p q hpq k
+  rw [visibleRow_eq, visibleRow_eq]
+  exact ⟨visible_isSome_of_status _ _ hs, fun c => visible_col_of_cells _ _ c hs (hc c)⟩
 
 /-- **merging adds nothing when nothing new was committed**: merging again a version (or a merge of
     versions) that is already included leaves every cell unchanged -/
@@ -58,7 +122,11 @@ theorem C01_remerge_absorbs (S : List String) (vs : Nat → Table K V) (F : Fami
     (p q : Sel.Plan) (hsub : ∀ i, i ∈ q.leaves → i ∈ p.leaves) (k : K) :
     statusCell (lookup k (evalTables vs (.node p q))) = statusCell (lookup k (evalTables vs p)) ∧
     ∀ c, colCell c (lookup k (evalTables vs (.node p q))) = colCell c (lookup k (evalTables vs p)) := by
-  sorry
+  obtain ⟨hsp, hcp, _⟩ := cells_of_plan S vs F k p
+  obtain ⟨hsn, hcn, _⟩ := cells_of_plan S vs F k (.node p q)
+  refine ⟨?_, fun c => ?_⟩
+  · rw [hsp, hsn]; exact Sel.evalAt_absorb statusLaws (F.statR k) p q hsub
+  · rw [hcp c, hcn c]; exact Sel.evalAt_absorb colLaws (F.colR k c) p q hsub
 
 /-- `MergeRows` is **not** a join on arbitrary hand-built rows (kept so that nobody mistakes it
     for one): the invariant `RowInv` is what SQL-written rows add -/
@@ -79,19 +147,32 @@ def Covers (S : List String) (vals : AList String V) : Prop :=
 
 theorem tableInv_insert (S : List String) (t t' : Table K V) (when : Int) (k : K) (vals : AList String V)
     (hc : Covers S vals) (ht : TableInv S t) (h : insertRow t when k vals = .ok t') : TableInv S t' := by
-  sorry
+  rcases insertRow_ok h with ⟨_, rfl⟩ | ⟨e, he, _, _, rfl⟩
+  · exact inv_insert S ht.1 ht.2 k _ (rowInv_insDelta S when vals hc)
+  · exact inv_insert S ht.1 ht.2 k _
+      (rowInv_mergeRows S _ _ (ht.2 k e he) (rowInv_insDelta S when vals hc))
 
 theorem tableInv_update (S : List String) (t : Table K V) (when : Int) (k : K) (vals : AList String V)
     (hc : ∀ c, c ∈ keys vals → c ∈ S) (ht : TableInv S t) : TableInv S (updateRow t when k vals) := by
-  sorry
+  by_cases h : ∀ e, lookup k t = some e → e.row.deleted = true
+  · rw [updateRow_noop h]; exact ht
+  · obtain ⟨e, he, hl⟩ := exists_live_of_not h
+    rw [updateRow_live he hl]
+    exact inv_insert S ht.1 ht.2 k _ (rowInv_updateMerge S _ (ht.2 k e he) hl when vals hc)
 
 theorem tableInv_delete (S : List String) (t : Table K V) (when : Int) (k : K)
     (ht : TableInv S t) : TableInv S (deleteRow t when k) := by
-  sorry
+  rw [deleteRow_eq]
+  apply inv_insert S ht.1 ht.2
+  cases he : lookup k t with
+  | none => exact rowInv_delDelta S when
+  | some e => exact rowInv_mergeRows S _ _ (ht.2 k e he) (rowInv_delDelta S when)
 
 theorem tableInv_merge (S : List String) (a g : Table K V) (ha : TableInv S a) (hg : TableInv S g) :
     TableInv S (mergeTables a g) := by
-  sorry
+  refine ⟨Kv.nodupKeys_mergeTrees _ _ ha.1, fun k e he => ?_⟩
+  rw [mergeTables, Kv.lookup_mergeTrees mergeEntry g hg.1 a k] at he
+  exact mergeOpt_inv S _ _ (ha.2 k) (hg.2 k) e he
 
 /-- non-vacuity: a three-version family (delete / re-insert / concurrent update) satisfies the
     hypotheses, and two different groupings agree on it -/
@@ -103,6 +184,8 @@ example :
     RowInv ["b", "c"] x ∧ RowInv ["b", "c"] y ∧ RowInv ["b", "c"] z ∧
     lookup "c" (mergeRows (mergeRows x y) z).cols = lookup "c" (mergeRows x (mergeRows y z)).cols ∧
     lookup "c" (mergeRows (mergeRows x y) z).cols = some ⟨22, 12⟩ := by
-  sorry
+  intro ins1 x y z
+  exact ⟨rowInv_of_rowInvB (by decide), rowInv_of_rowInvB (by decide), rowInv_of_rowInvB (by decide),
+    by decide, by decide⟩
 
 end S3db.Props.C01
